@@ -132,6 +132,15 @@ class Check:
             'known_findings_reported': [f.sig for f in kf],
             'exhaustive': True,
         }
+        try:
+            from interp import Interp
+            cov['interpreter_runs'] = Interp.RUNS[0]
+            cov['interpreter_steps'] = Interp.RUNS[1]
+            cov['functions_interpreted'] = sorted(Interp.ALL_FUNCS)
+            cov['api_model_entries_used'] = sorted(Interp.ALL_MODEL)
+            cov['unclassified_externals'] = sorted(x for x in Interp.ALL_UNCLASSIFIED if x)
+        except Exception:
+            pass
         cov.update(self.coverage)
         if extra:
             cov.update(extra)
